@@ -413,6 +413,7 @@ Proof.
   destruct (existsb (fun p => String.eqb p "..") (split_on slash dest')) eqn:Hdd; [discriminate|].
   destruct (is_abs dest'); [discriminate|]. unfold secure_join_lex2.
   destruct (has_dotdot (path_clean root)) eqn:Hr; [discriminate|].
+  destruct (has_nul dest'); [discriminate|].
   intros H. injection H as Hp. cbv zeta.
   rewrite clean_go_nodotdot in Hp by assumption. simpl in Hp.
   set (rest := filter (fun c => negb (trivial_comp c)) (split_on slash dest')) in *.
@@ -434,17 +435,18 @@ Proof. intros _ H. destruct cs; [congruence|reflexivity]. Qed.
 
 Theorem clean_join2_agrees root dest :
   has_dotdot (path_clean root) = false -> clean_comps (path_clean root) <> [] ->
+  has_nul (replace_char bslash slash dest) = false ->
   match clean_join root dest, clean_join2 root dest with
   | inl CJColon, inl CJ2Colon | inl CJDotDot, inl CJ2DotDot | inl CJAbs, inl CJ2Abs => True
   | inr a, inr b => a = b
   | _, _ => False
   end.
 Proof.
-  intros Hr Hroot. unfold clean_join, clean_join2.
+  intros Hr Hroot Hnul. unfold clean_join, clean_join2.
   destruct (contains_char colon dest); auto.
-  set (dest' := replace_char bslash slash dest).
+  set (dest' := replace_char bslash slash dest) in *.
   destruct (existsb (fun p => String.eqb p "..") (split_on slash dest')) eqn:Hdd; auto.
-  destruct (is_abs dest'); auto. unfold secure_join_lex2, secure_join_lex. rewrite Hr.
+  destruct (is_abs dest'); auto. unfold secure_join_lex2, secure_join_lex. rewrite Hr, Hnul.
   rewrite clean_go_nodotdot by assumption. cbn [rev app].
   set (rest := filter (fun c => negb (trivial_comp c)) (split_on slash dest')).
   assert (Forall good_comp rest) as Hg by now apply filter_nontrivial_good.
